@@ -140,7 +140,10 @@ def gen(run_seed, tier):
         ops.append(op)
     ops.append({'op': 'restart', 'mode': 'clean' if faultfree else r.choice(['kill', 'clean']), 'double': True,
                 'second_mode': 'clean' if faultfree else 'kill'})
-    return {'family': 'faultfree' if faultfree else 'faults', 'sizes': sizes, 'ops': ops}
+    # the daemon's BlobComponent hands every BlobManager the DHT node's data store, whose `completed_blobs` set
+    # outlives an in-process stop/start of the component (own stream: earlier histories are unchanged)
+    shared = stream('C18.gen.shared_store', run_seed).random() < 0.5
+    return {'family': 'faultfree' if faultfree else 'faults', 'sizes': sizes, 'ops': ops, 'shared_store': shared}
 
 
 def shrink(sc):
@@ -428,7 +431,22 @@ def execute(scenario, keep_trace=False):
                     st['boot_crash'] = None
                 try:
                     storage = inc['storage'] = await be.open_storage(loop, conf, dirs)
-                    bm = inc['bm'] = BlobManager(loop, dirs.blobs, storage, conf)
+                    if scenario.get('shared_store'):
+                        if st.get('data_store') is None:
+                            from lbry.dht.protocol.data_store import DictDataStore
+                            from lbry.dht.peer import PeerManager
+                            from lbry.dht.peer import make_kademlia_peer
+                            st['data_store'] = DictDataStore(loop, PeerManager(loop))
+                            # a DHT node that has been up for a while holds announcements of other peers; an EMPTY
+                            # store is falsy and BlobManager then keeps a private set
+                            st['data_store'].add_peer_to_blob(
+                                make_kademlia_peer(b'\x11' * 48, '44.3.2.1', udp_port=4444, tcp_port=3333), b'\x22' * 48)
+                            run.probes['data_store_new_process'] += 1
+                        else:
+                            run.probes['data_store_survived_clean_restart'] += 1
+                        bm = inc['bm'] = BlobManager(loop, dirs.blobs, storage, conf, st['data_store'])
+                    else:
+                        bm = inc['bm'] = BlobManager(loop, dirs.blobs, storage, conf)
                     await bm.setup()
                 except (asyncio.CancelledError, SimBudget, SimIdle, SimCrash):
                     raise
@@ -498,6 +516,7 @@ def execute(scenario, keep_trace=False):
                     await storage.close()
                     inc['storage'] = None
                 else:
+                    st['data_store'] = None        # a new process has a new DHT node
                     run.probes['restart_kill'] += 1
                     if inflight():
                         run.probes['death_with_inflight_work'] += 1
@@ -630,6 +649,7 @@ def execute(scenario, keep_trace=False):
             try:
                 outcome = run.drive(incarnation())
             except SimCrash:
+                st['data_store'] = None
                 st['crashes'] += 1
                 st['pending_fault'] = True
                 st['clean_slate'] = False
